@@ -330,7 +330,7 @@ class IndexedGrammar:
                        [left, right]):
                     l_rules.append(rule)
         rules = Rules(l_rules, self.rules.optim)
-        return IndexedGrammar(rules)
+        return IndexedGrammar(rules, self.start_variable)
 
     def intersection(self, other: Any) -> "IndexedGrammar":
         """ Computes the intersection of the current indexed grammar with the \
